@@ -62,4 +62,15 @@ class BadKey(object):
         raise RuntimeError('BadKey cannot be serialised')
 
 
+class UnsavableResult(object):
+    """A value that is captured by reference without trouble but cannot be serialised when the cassette saves the
+    recording: the *real* cassette's save fails half-way (not a failure injected in front of it)."""
+
+    def __init__(self, token):
+        self.token = token
+
+    def __getstate__(self):
+        raise RuntimeError('UnsavableResult cannot be serialised (scripted failure inside the cassette\'s save)')
+
+
 EXC = {'E1': ScriptedError1, 'E2': ScriptedError2}
